@@ -469,7 +469,10 @@ fn gen_case(g: &mut G) -> Case {
                 2 => V::Bytes(gen_bytes(g, 8)),
                 _ => gen_value(g, 2),
             };
-            if g.flag() {
+            // a map that has a field named `size`: `c.size` is that field (C12), and calling a field
+            // value says nothing about size() (a type value there is a constructor: timestamp() reads the clock)
+            let field_shadows = matches!(&v, V::Map(m) if m.contains_key("size"));
+            if g.flag() || field_shadows {
                 Case { label: "size-free", var_form: call("size", vec![var("c")]), binds: vec![("c".into(), v)], nontrivial: true }
             } else {
                 Case { label: "size-method", var_form: method(var("c"), "size", vec![]), binds: vec![("c".into(), v)], nontrivial: true }
